@@ -1407,7 +1407,13 @@ class Model(Object):
     def __exit__(self, type, value, traceback) -> None:
         """Pop the top context manager and trigger the undo functions."""
         context = self._contexts.pop()
-        context.reset()
+        # The undo functions call context-aware methods themselves; they must not
+        # record new undo functions into the enclosing contexts.
+        enclosing, self._contexts = self._contexts, []
+        try:
+            context.reset()
+        finally:
+            self._contexts = enclosing
 
     def merge(
         self,
